@@ -49,6 +49,12 @@ func strMap(names map[string]string) map[string]string {
 }
 
 func runMatch(expr string, item Item, names map[string]string, values map[string]AV) (out Outcome) {
+	if noImpl {
+		return Outcome{"skipped": true}
+	}
+	if skipThis() {
+		return fatalOutcome()
+	}
 	defer func() {
 		if r := recover(); r != nil {
 			out = crashOutcome(r)
@@ -68,6 +74,12 @@ func runMatch(expr string, item Item, names map[string]string, values map[string
 }
 
 func runUpdate(expr string, item Item, names map[string]string, values map[string]AV) (out Outcome) {
+	if noImpl {
+		return Outcome{"skipped": true}
+	}
+	if skipThis() {
+		return fatalOutcome()
+	}
 	defer func() {
 		if r := recover(); r != nil {
 			out = crashOutcome(r)
